@@ -937,6 +937,18 @@ func (c *Ctx) execInstr(fr *Frame, b *ssa.BasicBlock, st *State, in ssa.Instruct
 		return true
 	case *ssa.BinOp:
 		xv, yv := c.val(fr, st, x.X), c.val(fr, st, x.Y)
+		if x.Op == token.ADD && isStringType(x.X.Type()) && xv.S != "" && yv.S != "" {
+			// string concatenation allocates len(x)+len(y) bytes
+			_, cx := x.X.(*ssa.Const)
+			_, cy := x.Y.(*ssa.Const)
+			if !cx && !cy {
+				c.allocOblige(fr, st, x, c.idxAdd(fmt.Sprintf("(str_len %s)", xv.S), fmt.Sprintf("(str_len %s)", yv.S)), 1, "string concatenation")
+			}
+			nv := c.havocVal(x.Type(), "concat")
+			c.assume(st.reach, fmt.Sprintf("(= (str_len %s) %s)", nv.S, c.idxAdd(fmt.Sprintf("(str_len %s)", xv.S), fmt.Sprintf("(str_len %s)", yv.S))))
+			fr.vals[x] = nv
+			return true
+		}
 		res, pc, ok := c.binop(x.Op, xv.S, yv.S, x.X.Type(), x.Y.Type())
 		if !ok || xv.S == "" || yv.S == "" {
 			c.note(fmt.Sprintf("unsupported binop %s on %s", x.Op, x.X.Type()))
@@ -963,6 +975,7 @@ func (c *Ctx) execInstr(fr *Frame, b *ssa.BasicBlock, st *State, in ssa.Instruct
 			if pv.P.Base != "" && !isAllocBase(fr, x.X) {
 				c.rteOblige(fr, st, "nil", x, fmt.Sprintf("(not (= %s 0))", pv.P.Base))
 			}
+			c.assumeTypeInv(st, pv.P)
 			lv := c.load(st, pv.P)
 			if lv.S != "" {
 				nv := c.bind(fr, x, x.Type(), lv.S)
@@ -1095,6 +1108,9 @@ func (c *Ctx) execInstr(fr *Frame, b *ssa.BasicBlock, st *State, in ssa.Instruct
 		l := c.toIdx(ln.S, x.Len.Type())
 		cpt := c.toIdx(cp.S, x.Cap.Type())
 		c.rteOblige(fr, st, "makeslice", x, and(c.idxLe(c.sorts.idxLit(0), l), c.idxLe(l, cpt), c.idxLe(cpt, c.sorts.idxLit(1<<47))))
+		if _, isConst := x.Cap.(*ssa.Const); !isConst {
+			c.allocOblige(fr, st, x, cpt, elemSize(elem), "make")
+		}
 		ref := c.def(fr.pfx+x.Name()+"_arr", "Int", st.alloc)
 		st.alloc = c.def("alloc", "Int", fmt.Sprintf("(+ %s 1)", ref))
 		h := c.heapSym(st, key)
@@ -1502,6 +1518,7 @@ func (c *Ctx) execConvert(fr *Frame, st *State, x *ssa.Convert) bool {
 			c.ensureHeapSort(key, sl.Elem())
 			ref := c.def(fr.pfx+x.Name()+"_arr", "Int", st.alloc)
 			st.alloc = c.def("alloc", "Int", fmt.Sprintf("(+ %s 1)", ref))
+			// []byte(s) / string(b) copy data the context already holds (same size): not counted
 			nv := c.bind(fr, x, to, fmt.Sprintf("(mk_Slice %s %s (str_len %s) (str_len %s))", ref, c.sorts.idxLit(0), xv.S, xv.S))
 			if bits, _, ok := isIntType(sl.Elem()); ok && bits == 8 {
 				h := c.heapSym(st, key)
@@ -1624,4 +1641,63 @@ func varargArray(x *ssa.Slice) bool {
 		}
 	}
 	return true
+}
+
+func elemSize(t types.Type) int64 {
+	return types.SizesFor("gc", "amd64").Sizeof(t)
+}
+
+// allocOblige: an allocation of n elements of the given size must be covered
+// by the memory charged so far in this call (ghost mem) plus the contract's
+// constant slack.  Only generated in functions whose contract says `allocs charged`.
+func (c *Ctx) allocOblige(fr *Frame, st *State, in ssa.Instruction, n string, esize int64, what string) {
+	if !fr.top {
+		return
+	}
+	slack, ok := allocSlack(fr.contract)
+	if !ok {
+		return
+	}
+	g, have := st.ghost["mem"]
+	if !have {
+		return
+	}
+	cnt := n
+	if c.mode == BV {
+		cnt = fmt.Sprintf("(bv2nat %s)", n)
+	}
+	fr.callSeq["alloc"]++
+	o := c.oblige("alloc", fmt.Sprintf("alloc.charged#%d:%s", fr.callSeq["alloc"], what), st.reach,
+		fmt.Sprintf("(>= (+ %s %d) (* %d %s))", g, slack, esize, cnt), c.pos(in.Pos()))
+	o.Desc = fmt.Sprintf("%s of a program-chosen size is covered by the memory charged before it (+%d bytes slack)", what, slack)
+}
+
+// assumeTypeInv: declared type invariants (`typeinv T: P(self)`) are assumed
+// for the object a field is read from (listed as assumptions in the evidence).
+func (c *Ctx) assumeTypeInv(st *State, p *Ptr) {
+	if p == nil || p.Base == "" || !strings.HasPrefix(p.Key, "H:") || len(p.Path) == 0 || p.Path[0].IsIndex {
+		return
+	}
+	n, ok := p.Path[0].ST.(*types.Named)
+	if !ok || n.Obj().Pkg() == nil {
+		return
+	}
+	ti := lookupTypeInv(n.Obj().Pkg().Path() + "." + n.Obj().Name())
+	if ti == nil {
+		return
+	}
+	key := "typeinv|" + p.Base + "|" + c.heapSym(st, p.Key)
+	if c.instDone[key] {
+		return
+	}
+	c.instDone[key] = true
+	self := c.mkVal(types.NewPointer(n), p.Base)
+	env := &SpecEnv{c: c, vars: map[string]Val{"self": self}, cur: st, old: st, pkg: n.Obj().Pkg()}
+	env.soft = true
+	g := c.specBool(env, ti.Expr)
+	if len(env.errs) > 0 {
+		return
+	}
+	c.trusted["type invariant assumed: "+n.Obj().Name()+": "+ti.Text] = true
+	c.assume(st.reach, fmt.Sprintf("(=> (not (= %s 0)) %s)", p.Base, g))
 }
